@@ -465,3 +465,263 @@ Section Dec.
     intros x nd Px En. apply (C x nd); [apply Px|exact En].
   Qed.
 End Dec.
+
+(** ---- in-place mutation touches one location --------------------------------------------------- *)
+
+Lemma list_set_In {A} (l : list A) : forall i v l', list_set l i v = Some l' -> forall c, In c l' -> In c l \/ c = v.
+Proof.
+  induction l as [|x l IH]; intros [|i] v l' E c I; cbn in E; try discriminate.
+  - injection E as <-. destruct I as [<-|I]; [right; reflexivity|left; right; exact I].
+  - destruct (list_set l i v) as [t|] eqn:Et; [|discriminate]. injection E as <-.
+    destruct I as [<-|I]; [left; left; reflexivity|]. destruct (IH _ _ _ Et c I); [left; right|right]; auto.
+Qed.
+
+Lemma list_del_In {A} (l : list A) : forall i l', list_del l i = Some l' -> forall c, In c l' -> In c l.
+Proof.
+  induction l as [|x l IH]; intros [|i] l' E c I; cbn in E; try discriminate.
+  - injection E as <-. right. exact I.
+  - destruct (list_del l i) as [t|] eqn:Et; [|discriminate]. injection E as <-.
+    destruct I as [<-|I]; [left; reflexivity|right; eapply IH; eauto].
+Qed.
+
+Lemma item_set_In {A} (d : list (str * A)) k v c : In c (map snd (item_set d k v)) -> In c (map snd d) \/ c = v.
+Proof.
+  induction d as [|[k' x] d IH]; cbn.
+  - intros [<-|[]]. right. reflexivity.
+  - destruct (str_eqb k k'); cbn.
+    + intros [<-|I]; [right; reflexivity|left; right; exact I].
+    + intros [<-|I]; [left; left; reflexivity|]. destruct (IH I); [left; right|right]; auto.
+Qed.
+
+Lemma item_del_In {A} (d : list (str * A)) k : forall d', item_del d k = Some d' -> forall c, In c (map snd d') -> In c (map snd d).
+Proof.
+  induction d as [|[k' x] d IH]; intros d' E c I; cbn in E; [discriminate|].
+  destruct (str_eqb k k').
+  - injection E as <-. right. exact I.
+  - destruct (item_del d k) as [t|] eqn:Et; [|discriminate]. injection E as <-. cbn in I.
+    destruct I as [<-|I]; [left; reflexivity|right; eapply IH; eauto].
+Qed.
+
+(** the references stored in the node afterwards were there before, or are the stored value *)
+Lemma mutate_node_children nd m nd' :
+  mutate_node nd m = Some nd' -> forall c, In c (children nd') -> In c (children nd) \/ mut_val m = Some c.
+Proof.
+  intros E c I. destruct m, nd; cbn in E; try discriminate; cbn [children mut_val] in *.
+  - destruct (list_set l0 i v) as [t|] eqn:Et; [|discriminate]. injection E as <-. cbn in I.
+    destruct (list_set_In _ _ _ _ Et c I) as [?| ->]; auto.
+  - injection E as <-. cbn in I. apply in_app_or in I. destruct I as [I|[<-|[]]]; auto.
+  - destruct (list_del l0 i) as [t|] eqn:Et; [|discriminate]. injection E as <-. cbn in I.
+    left. eapply list_del_In; eauto.
+  - injection E as <-. cbn in I. destruct (item_set_In _ _ _ _ I) as [?| ->]; auto.
+  - destruct (item_del d k) as [t|] eqn:Et; [|discriminate]. injection E as <-. cbn in I.
+    left. eapply item_del_In; eauto.
+  - injection E as <-. cbn in I. destruct (item_set_In _ _ _ _ I) as [?| ->]; auto.
+  - destruct (item_del attrs k) as [t|] eqn:Et; [|discriminate]. injection E as <-. cbn in I.
+    left. eapply item_del_In; eauto.
+  - injection E as <-. cbn in I. destruct (existsb (ref_eqb v) l0); [left; exact I|].
+    apply in_app_or in I. destruct I as [I|[<-|[]]]; auto.
+  - destruct (list_del l0 i) as [t|] eqn:Et; [|discriminate]. injection E as <-. cbn in I.
+    left. eapply list_del_In; eauto.
+Qed.
+
+Theorem apply_mut_local h m h' :
+  apply_mut h m = Some h' ->
+  length h' = length h /\ (forall l, l <> mut_loc m -> nth_error h' l = nth_error h l).
+Proof.
+  unfold apply_mut. destruct (nth_error h (mut_loc m)) as [nd|]; [|discriminate].
+  destruct (mutate_node nd m) as [nd'|]; [|discriminate]. intros E. injection E as <-.
+  split; [apply heap_set_length|]. intros l N. apply heap_set_other, N.
+Qed.
+
+(** What code can do that holds only references into the region [P]: mutate a node of [P] in
+    place, storing a reference it holds, or create a new object from references it holds. *)
+Inductive client_step (P : nat -> Prop) : heap -> heap -> Prop :=
+| cs_mutate h m h' :
+    apply_mut h m = Some h' -> P (mut_loc m) -> (forall v, mut_val m = Some v -> ref_in P v) ->
+    client_step P h h'
+| cs_alloc h nd :
+    P (length h) -> Forall (ref_in P) (children nd) -> client_step P h (h ++ [nd]).
+
+Inductive client_steps (P : nat -> Prop) : heap -> heap -> Prop :=
+| cs_nil h : client_steps P h h
+| cs_cons h h1 h2 : client_step P h h1 -> client_steps P h1 h2 -> client_steps P h h2.
+
+Lemma client_step_frame P h h' : client_step P h h' -> forall l, ~ P l -> nth_error h' l = nth_error h l.
+Proof.
+  intros S l N. destruct S as [h m h' E Pm _|h nd Pn _].
+  - apply (apply_mut_local _ _ _ E). intros ->. auto.
+  - destruct (Nat.lt_ge_cases l (length h)) as [Lt|Ge]; [apply nth_error_app1, Lt|].
+    assert (l <> length h) by (intros ->; auto).
+    assert (G1 : nth_error (h ++ [nd]) l = None) by (apply nth_error_None; rewrite app_length; cbn; lia).
+    assert (G2 : nth_error h l = None) by (apply nth_error_None; lia).
+    congruence.
+Qed.
+
+Lemma client_step_closed P h h' : closed_set P h -> client_step P h h' -> closed_set P h'.
+Proof.
+  intros C S. destruct S as [h m h' E Pm Pv|h nd Pn Pc]; intros l nd' Pl En.
+  - unfold apply_mut in E. destruct (nth_error h (mut_loc m)) as [nd0|] eqn:E0; [|discriminate].
+    destruct (mutate_node nd0 m) as [nd1|] eqn:E1; [|discriminate]. injection E as <-.
+    destruct (Nat.eq_dec l (mut_loc m)) as [->|N].
+    + rewrite heap_set_same in En by (apply nth_error_Some; congruence). injection En as <-.
+      apply Forall_forall. intros c I.
+      destruct (mutate_node_children _ _ _ E1 c I) as [I0|V]; [|apply Pv, V].
+      pose proof (C _ _ Pm E0) as F. rewrite Forall_forall in F. apply F, I0.
+    + rewrite heap_set_other in En by exact N. eapply C; eauto.
+  - destruct (Nat.lt_ge_cases l (length h)) as [Lt|Ge].
+    + rewrite nth_error_app1 in En by exact Lt. eapply C; eauto.
+    + rewrite nth_error_app2 in En by exact Ge.
+      destruct (l - length h) as [|k]; cbn in En; [|destruct k; discriminate]. injection En as <-. exact Pc.
+Qed.
+
+(** C11_mutation_stays_reachable: whatever a client confined to [P] does - any number of
+    in-place mutations and allocations - every location outside [P] keeps its node, and the
+    client still cannot reach anything outside [P]. *)
+Theorem client_steps_frame P h h'' :
+  closed_set P h -> client_steps P h h'' -> agree_on (fun l => ~ P l) h h'' /\ closed_set P h''.
+Proof.
+  intros C S. induction S as [h|h h1 h2 S1 S IH]; [split; [intros l _; reflexivity|exact C]|].
+  destruct (IH (client_step_closed _ _ _ C S1)) as [A C2]. split; [|exact C2].
+  intros l N. rewrite <- (A l N). symmetry. eapply client_step_frame; eauto.
+Qed.
+
+(** ---- recording level ------------------------------------------------------------------------------ *)
+
+Lemma agree_app_old (h e : heap) : agree_on (fun l => l < length h) h (h ++ e).
+Proof. intros l Hl. symmetry. apply nth_error_app1, Hl. Qed.
+
+Lemma assoc_item_set {A} (d : list (str * A)) k v : assoc k (item_set d k v) = Some v.
+Proof.
+  induction d as [|[k' x] d IH]; cbn; [rewrite str_eqb_refl; reflexivity|].
+  destruct (str_eqb k k') eqn:E; cbn; rewrite E; [reflexivity|exact IH].
+Qed.
+
+Section Rec.
+  Variable qp : list N -> str.
+  Variable qp_dec : str -> list N.
+
+  Lemma pickle_copy_inv fuel h r h' r' :
+    pickle_copy qp qp_dec fuel h r = HOk (h', r') ->
+    exists j, encode_top qp fuel h r = HOk j /\ decode_h qp_dec fuel h j = HOk (h', r').
+  Proof.
+    unfold pickle_copy. destruct (encode_top qp fuel h r) as [j|e]; [|discriminate]. eauto.
+  Qed.
+
+  (** C11_get_data_fresh *)
+  Theorem get_data_fresh fuel h rec k h' r :
+    heap_wf h ->
+    get_data qp qp_dec fuel h rec k = HOk (h', r) ->
+    exists stored j,
+      get_data_direct h rec k = Some stored /\
+      encode_top qp fuel h stored = HOk j /\ decode_h qp_dec fuel h j = HOk (h', r) /\
+      (exists e, h' = h ++ e) /\
+      (forall l, reach h' r l -> length h <= l < length h') /\
+      (forall h'', agree_on (fun l => l < length h) h' h'' ->
+         (forall fuel2 seen x, ref_in (fun l => l < length h) x ->
+            encode_h qp fuel2 h'' seen x = encode_h qp fuel2 h seen x) /\
+         get_data qp qp_dec fuel h'' rec k = decode_h qp_dec fuel h'' j).
+  Proof.
+    intros W G. unfold get_data in G.
+    destruct (get_data_direct h rec k) as [stored|] eqn:ED; [|discriminate].
+    destruct (pickle_copy_inv _ _ _ _ _ G) as (j & EJ & DJ).
+    exists stored, j. split; [reflexivity|]. split; [exact EJ|]. split; [exact DJ|].
+    destruct (decode_fresh qp_dec _ _ _ _ _ DJ) as ([e ->] & _ & _ & RB).
+    split; [eauto|]. split; [exact RB|].
+    intros h'' A.
+    assert (A0 : agree_on (fun l => l < length h) h h'').
+    { intros l Hl. rewrite <- (A l Hl). apply agree_app_old, Hl. }
+    assert (Loc : forall fuel2 seen x, ref_in (fun l => l < length h) x ->
+                  encode_h qp fuel2 h'' seen x = encode_h qp fuel2 h seen x).
+    { intros. apply (encode_local qp (length h)); auto. }
+    split; [exact Loc|].
+    (* a later read of the same key finds the same reference and encodes it to the same JSON *)
+    unfold get_data_direct in ED. destruct (nth_error h rec) as [nd|] eqn:En; [|discriminate].
+    assert (Lr : rec < length h) by (apply nth_error_Some; congruence).
+    destruct nd as [| | |d|]; try discriminate.
+    assert (Ls : ref_in (fun l => l < length h) stored).
+    { pose proof (W rec _ Lr En) as F. cbn in F. rewrite Forall_forall in F. apply F.
+      clear - ED. induction d as [|[k' x] d IH]; cbn in *; [discriminate|].
+      destruct (str_eqb k k'); [injection ED as ->; left; reflexivity|right; apply IH, ED]. }
+    unfold get_data, get_data_direct. rewrite <- (A0 rec Lr), En, ED.
+    unfold pickle_copy, encode_top. rewrite (Loc fuel [] stored Ls).
+    unfold encode_top in EJ. destruct (encode_h qp fuel h [] stored) as [[s j0]|e0]; [|discriminate].
+    injection EJ as ->. reflexivity.
+  Qed.
+
+  (** C11_fetch_independent *)
+  Theorem fetch_independent fuel h (cas : cassette) id h1 r1 h2 r2 :
+    get_recording qp_dec fuel h cas id = HOk (h1, r1) ->
+    get_recording qp_dec fuel h1 cas id = HOk (h2, r2) ->
+    (exists e1 e2, h1 = h ++ e1 /\ h2 = h1 ++ e2) /\
+    (forall l, reach h2 r1 l -> length h <= l < length h1) /\
+    (forall l, reach h2 r2 l -> length h1 <= l < length h2) /\
+    (forall l, reach h2 r1 l -> reach h2 r2 l -> False) /\
+    (forall h'', agree_on (inr (length h1) (length h2)) h2 h'' ->
+       forall f s, encode_h qp f h'' s r2 = encode_h qp f h2 s r2) /\
+    (forall h'', agree_on (inr (length h) (length h1)) h2 h'' ->
+       forall f s, encode_h qp f h'' s r1 = encode_h qp f h2 s r1) /\
+    (exists j, assoc id cas = Some j /\
+               forall h'', get_recording qp_dec fuel h'' cas id = decode_h qp_dec fuel h'' j).
+  Proof.
+    unfold get_recording. destruct (assoc id cas) as [j|]; [|discriminate]. intros D1 D2.
+    destruct (decode_fresh qp_dec _ _ _ _ _ D1) as ([e1 ->] & R1 & C1 & _).
+    destruct (decode_fresh qp_dec _ _ _ _ _ D2) as ([e2 ->] & R2 & C2 & B2).
+    set (h1 := h ++ e1) in *. set (h2 := h1 ++ e2) in *.
+    assert (K1 : closed_set (inr (length h) (length h1)) h2).
+    { intros l nd [Lo Hi] En. unfold h2 in En. rewrite nth_error_app1 in En by exact Hi. apply (C1 l nd Lo En). }
+    assert (K2 : closed_set (inr (length h1) (length h2)) h2).
+    { intros l nd [Lo Hi] En. apply (C2 l nd Lo En). }
+    assert (B1 : forall l, reach h2 r1 l -> length h <= l < length h1).
+    { intros l Rl. apply (reach_closed _ _ _ _ K1 R1 Rl). }
+    split; [exists e1, e2; auto|]. split; [exact B1|]. split; [exact B2|].
+    split; [intros l Ra Rb; apply B1 in Ra; apply B2 in Rb; lia|].
+    split; [|split].
+    - intros h'' A f s. apply (encode_region qp _ _ _ K2 A). exact R2.
+    - intros h'' A f s. apply (encode_region qp _ _ _ K1 A). exact R1.
+    - exists j. split; [reflexivity|]. intros h''. reflexivity.
+  Qed.
+
+  (** C11_copy_on_interception *)
+  Theorem copy_on_interception fuel h rec k result h1 r' h2 :
+    rec < length h ->
+    pickle_copy qp qp_dec fuel h result = HOk (h1, r') ->
+    record_value qp qp_dec true fuel h rec k result = HOk h2 ->
+    recorded_value h2 rec k = Some r' /\
+    (exists j, encode_top qp fuel h result = HOk j /\ decode_h qp_dec fuel h j = HOk (h1, r')) /\
+    length h <= length h1 /\ length h2 = S (length h1) /\
+    (forall l, l < length h -> l <> rec -> nth_error h2 l = nth_error h l) /\
+    (forall l, reach h2 r' l -> length h <= l < length h1) /\
+    (forall h'', agree_on (inr (length h) (length h1)) h2 h'' ->
+       forall f s, encode_h qp f h'' s r' = encode_h qp f h2 s r').
+  Proof.
+    intros Lr PC RV. unfold record_value in RV. rewrite PC in RV.
+    destruct (pickle_copy_inv _ _ _ _ _ PC) as (j & EJ & DJ).
+    destruct (decode_fresh qp_dec _ _ _ _ _ DJ) as ([e E1] & R1 & C1 & _).
+    assert (Lh1 : length h <= length h1) by (rewrite E1, app_length; lia).
+    set (w := NDict [(VALUE, r')]) in *.
+    unfold set_data, apply_mut in RV. cbn [mut_loc] in RV.
+    assert (Eold : forall l, l < length h1 -> nth_error (h1 ++ [w]) l = nth_error h1 l).
+    { intros l Hl. apply nth_error_app1, Hl. }
+    destruct (nth_error (h1 ++ [w]) rec) as [nd|] eqn:En; [|discriminate].
+    destruct (mutate_node nd (MDictSet rec k (RLoc (length h1)))) as [nd'|] eqn:Em; [|discriminate].
+    injection RV as <-.
+    destruct nd as [| | |d|]; try discriminate. cbn in Em. injection Em as <-.
+    assert (Lw : length (h1 ++ [w]) = S (length h1)) by (rewrite app_length; cbn; lia).
+    assert (Nw : length h1 <> rec) by lia.
+    set (h2 := heap_set (h1 ++ [w]) rec (NDict (item_set d k (RLoc (length h1))))).
+    assert (Same : forall l, l <> rec -> nth_error h2 l = nth_error (h1 ++ [w]) l).
+    { intros l N. apply heap_set_other, N. }
+    assert (K1 : closed_set (inr (length h) (length h1)) h2).
+    { intros l nd [Lo Hi] El. rewrite Same in El by lia. rewrite Eold in El by exact Hi. apply (C1 l nd Lo El). }
+    split.
+    { unfold recorded_value, get_data_direct. unfold h2 at 1. rewrite heap_set_same by lia.
+      rewrite assoc_item_set. rewrite Same by exact Nw. rewrite nth_error_snoc_new. unfold w. cbn [assoc].
+      rewrite str_eqb_refl. reflexivity. }
+    split; [eauto|]. split; [exact Lh1|]. split; [unfold h2; rewrite heap_set_length; exact Lw|].
+    split.
+    { intros l Hl N. rewrite Same by exact N. rewrite Eold by lia. rewrite E1. apply nth_error_app1, Hl. }
+    split.
+    { intros l Rl. apply (reach_closed _ _ _ _ K1 R1 Rl). }
+    intros h'' A f s. apply (encode_region qp _ _ _ K1 A). exact R1.
+  Qed.
+End Rec.
